@@ -25,6 +25,7 @@ def check(repo, rep, tier):
     rx.rule_derived_tables_follow(em, rep, 'C08.Q9')
     rx.rule_lookup_confined(em, rep, 'C08.Q10')
     rx.rule_lookups_agree(em, rep, 'C08.Q11')
+    rq.rule_values_never_inspected(em, rep, 'C08.Q12')
     from .. import rules_compile as rc
     from .. import rules_clause as rcl
     rcl.rule_calls_late_bound(rc.CompilerModel(repo), rep, 'C08.Q7')
